@@ -233,6 +233,16 @@ pub fn strings(p: &N, seed: u64) -> Vec<String> {
         v.push(dec(&x));
         v.push(format!("000{}", dec(&x)));
     }
+    // every digit on its own, leading, trailing, and repeated up to the 77/78-digit boundary of p
+    for d in 0..10u8 {
+        let c = (b'0' + d) as char;
+        v.push(c.to_string());
+        v.push(format!("1{}", c));
+        v.push(format!("{}0", c));
+        for len in [76usize, 77, 78, 79] {
+            v.push(c.to_string().repeat(len));
+        }
+    }
     v.push("0".repeat(160));
     v.push("9".repeat(160));
     v.push("9".repeat(77));
